@@ -505,6 +505,46 @@ def _run(V, work, tier):
         flat = json.dumps(v)
         if "\"list\"" not in flat and "-1" not in json.dumps([x for x in _strings(v)]) and not r["equal"]["de"]:
             V.add(None, "(equal? v (json:load-string (json:dump-string v) :exact-integers true)) is false", {"value": v, "back": r["back"]["de"]})
+    # ---- deep nesting around a leaf (arrays, objects, alternating): the writer changes strategy for deep values and every
+    # option must survive that.  (The recursion of JsonDoc.tla's Encode / Parse is more than TLC's stack takes beyond
+    # ~30 levels, so the expected text is assembled here from the specification's text of the LEAF and the brackets.)
+    leaf_idx = {}
+    for want in (val_int(7), val_float(2.5), val_str([97]), val_int(2**63 - 1)):
+        for i, v in enumerate(vals):
+            if v == want:
+                leaf_idx[json.dumps(want, sort_keys=True)] = i
+                break
+    deep = []
+    for d in ((3, 61, 62, 63, 64, 65, 80, 130) if not thorough else tuple(range(55, 75)) + (3, 80, 100, 130, 160, 190)):
+        for lk, li in leaf_idx.items():
+            for style in ("arr", "obj", "mix"):
+                v = vals[li]
+                pre, post = b"", b""
+                for j in range(d):
+                    if style == "arr" or (style == "mix" and j % 2 == 0):
+                        v = {"t": "arr", "c": [v]}
+                        pre, post = b"[" + pre, post + b"]"
+                    else:
+                        v = {"t": "obj", "k": [[97]], "c": [v]}
+                        pre, post = b'{"a":' + pre, post + b"}"
+                deep.append({"v": v, "li": li, "pre": pre, "post": post, "d": d, "style": style})
+    dreal = driver_sharded(binary, "jsonx", [{"id": i, "value": to_driver(x["v"])} for i, x in enumerate(deep)], shards=8)
+    for i, x in enumerate(deep):
+        r = dreal[i]
+        for key, field in (("n", "text"), ("s", "textsn")):
+            want = x["pre"] + chars_bytes(enc[x["li"]][field]) + x["post"]
+            dd = r["dump"][key]
+            tag = "%d containers (%s) around %s" % (x["d"], x["style"], chars_bytes(enc[x["li"]]["text"]).decode())
+            if not dd["ok"]:
+                V.add(None, "json:dump-string refuses a deeply nested value: %s: %s" % (tag, dd.get("msg", "")[:100]), {"depth": x["d"], "style": x["style"], "string_numbers": key == "s"})
+                continue
+            got = base64.b64decode(dd["b64"])
+            if got != want:
+                V.add(None, "json:dump-string (string-numbers %s) of %s writes ...%r where the canonical text ends ...%r" % (key == "s", tag, got[len(x["pre"]) - 3:len(got) - len(x["post"]) + 3][:60], want[len(x["pre"]) - 3:len(want) - len(x["post"]) + 3][:60]),
+                      {"depth": x["d"], "style": x["style"], "string_numbers": key == "s", "leaf": chars_bytes(enc[x["li"]]["text"]).decode()})
+            if not dd["bytes_same"] or not dd["again_same"]:
+                V.add(None, "dump-string / dump-bytes / a second dump disagree on %s" % tag, {"depth": x["d"], "style": x["style"]})
+    V.coverage["deep_values"] = len(deep)
     V.coverage["values"] = len(vals)
     V.coverage["traces_validated_against_impl"] = ndocs + len(vals)
     V.coverage["exhaustive"] = True
